@@ -145,8 +145,9 @@ int main(int argc, char** argv){
       if (e == "ev_deriv_f") return ir_w_ev_deriv_f(T_, xp, cp, dv.empty() ? (char*)0 : (char*)dv.data());
       if (e == "ev_deriv_d") return ir_w_ev_deriv_d(T_, xp, cp, dv.empty() ? (char*)0 : (char*)dv.data());
 #ifdef WITH_CINTER
-      if (e == "c_eval") return ir_c_ndsplineeval(T_, xp, cp, m);
-      if (e == "c_deriv") return ir_c_ndsplineeval_deriv(T_, xp, cp, dv.empty() ? (char*)0 : (char*)dv.data());
+      struct { char* data; } ch = { T_ };    // the C handle: struct splinetable { void* data; }
+      if (e == "c_eval") return ir_c_ndsplineeval((char*)&ch, xp, cp, m);
+      if (e == "c_deriv") return ir_c_ndsplineeval_deriv((char*)&ch, xp, cp, dv.empty() ? (char*)0 : (char*)dv.data());
 #endif
       vs_error(("unknown scalar entry " + e).c_str()); return 0; };
     auto grad = [&](const std::string& e, std::vector<vr64>& out){
@@ -154,7 +155,7 @@ int main(int argc, char** argv){
       if (e == "grad_f") ir_w_grad_f(T_, xp, cp, op); else if (e == "grad_d") ir_w_grad_d(T_, xp, cp, op);
       else if (e == "ev_grad_f") ir_w_ev_grad_f(T_, xp, cp, op); else if (e == "ev_grad_d") ir_w_ev_grad_d(T_, xp, cp, op);
 #ifdef WITH_CINTER
-      else if (e == "c_grad") ir_c_ndsplineeval_gradient(T_, xp, cp, op);
+      else if (e == "c_grad") { struct { char* data; } ch = { T_ }; ir_c_ndsplineeval_gradient((char*)&ch, xp, cp, op); }
 #endif
       else vs_error(("unknown gradient entry " + e).c_str()); };
     if (kind == "value") {             // C01 (mask 0) / C02 (bitmask derivatives)
@@ -192,9 +193,15 @@ int main(int argc, char** argv){
         vs_prove_eq(a[0], scalar(entry2, 0, derivs), (id + " " + entry + "[0] == " + entry2).c_str());
         for (unsigned d = 0; d < ND; d++) vs_prove_eq(a[1 + d], scalar(entry2, 1u << d, derivs), (id + " " + entry + "[" + std::to_string(1 + d) + "] == " + entry2 + " mask").c_str()); }
       else { vr64 a = scalar(entry, mask, derivs); vr64 bb = scalar(entry2, mask, derivs); if (exc_pending) vs_error("unexpected exception");
+        if (a != bb && getenv("VS_DEBUG")) { fprintf(stderr, "A: %s\n", vs_show(a)); fprintf(stderr, "B: %s\n", vs_show(bb)); }
         vs_prove_eq(a, bb, (id + " " + entry + " == " + entry2).c_str()); }
       uint32_t ok2 = ir_w_ev_searchcenters_f((char*)&b->t, (char*)x.data(), (char*)c2.data());
       if (ok2 != ok || c2 != c) vs_error("evaluator searchcenters disagrees with member searchcenters");
+#ifdef WITH_CINTER
+      { struct { char* data; } ch = { (char*)&b->t }; std::vector<int32_t> c3(ND, -777);
+        uint32_t ok3 = ir_c_tablesearchcenters((char*)&ch, (char*)x.data(), (char*)c3.data());
+        if ((ok3 != 0) != (ok != 0) || c3 != c) vs_error("C tablesearchcenters disagrees with member searchcenters"); }
+#endif
     } else vs_error(("unknown case kind " + kind).c_str());
   }
   printf("E2 cases=%d errors=%d\n", ncase, nerr);
